@@ -703,11 +703,36 @@ func (w *world) newAccount(id uint64) e2wtypes.Account {
 // Providers.
 
 type world struct {
-	in  *Input
+	in  *Input // the duty being handled: its environment answers
 	rec *recorder
 	tab *bodyTable
 	// the proposal last handed to vouch (the plain account searches its roots)
 	lastProposal *api.VersionedProposal
+	// the relays of the duty being handled, and which call of the history this is
+	relays []builderclient.BuilderBidProvider
+	step   int
+}
+
+// begin switches the environment to the answers of one duty of the history and starts a fresh
+// record: one Prepare or Propose call follows.
+func (w *world) begin(d *Input) {
+	w.rec.mu.Lock()
+	w.in = d
+	w.step++
+	w.lastProposal = nil
+	w.relays = make([]builderclient.BuilderBidProvider, len(d.Relays))
+	for i, r := range d.Relays {
+		if r.Can {
+			w.relays[i] = &relayCan{relayBase: relayBase{w: w, i: i, in: d, step: w.step}}
+		} else {
+			w.relays[i] = &relayBase{w: w, i: i, in: d, step: w.step}
+		}
+	}
+	w.rec.start = time.Now()
+	w.rec.events = nil
+	w.rec.calls = make([][]Call, len(d.Relays))
+	w.rec.submit = nil
+	w.rec.mu.Unlock()
 }
 
 // accounts provider
@@ -803,8 +828,10 @@ func (w *world) ExecutionChainHead(context.Context) (phase0.Hash32, uint64) {
 
 // relays
 type relayBase struct {
-	w *world
-	i int
+	w    *world
+	i    int
+	in   *Input // the duty this relay object belongs to
+	step int
 }
 
 func (r *relayBase) Name() string              { return fmt.Sprintf("relay%d", r.i) }
@@ -834,11 +861,16 @@ func (r *relayCan) UnblindProposal(ctx context.Context, opts *builderapi.Unblind
 	r.n++
 	r.mu.Unlock()
 	r.w.rec.mu.Lock()
-	r.w.rec.calls[r.i] = append(r.w.rec.calls[r.i], Call{Start: start, Req: req})
+	if r.step != r.w.step || r.i >= len(r.w.rec.calls) {
+		// a relay of an earlier duty of the history asked while another call is being handled
+		r.w.rec.events = append(r.w.rec.events, Event{Kind: "strayunblind", Args: []uint64{uint64(r.i)}})
+	} else {
+		r.w.rec.calls[r.i] = append(r.w.rec.calls[r.i], Call{Start: start, Req: req})
+	}
 	r.w.rec.mu.Unlock()
 	out := UOut{Kind: "err"}
-	if k < len(r.w.in.Relays[r.i].Script) {
-		out = r.w.in.Relays[r.i].Script[k]
+	if k < len(r.in.Relays[r.i].Script) {
+		out = r.in.Relays[r.i].Script[k]
 	}
 	if out.Kind == "hang" {
 		<-ctx.Done()
@@ -872,8 +904,7 @@ var (
 
 // auctioneer
 type auctioneer struct {
-	w      *world
-	relays []builderclient.BuilderBidProvider
+	w *world
 }
 
 func (a *auctioneer) AuctionBlock(_ context.Context, slot phase0.Slot, parentHash phase0.Hash32, pubkey phase0.BLSPubKey) (*blockauctioneer.Results, error) {
@@ -885,10 +916,10 @@ func (a *auctioneer) AuctionBlock(_ context.Context, slot phase0.Slot, parentHas
 	res.AllProviders = []builderclient.BuilderBidProvider{}
 	res.Providers = []builderclient.BuilderBidProvider{}
 	for _, i := range a.w.in.All {
-		res.AllProviders = append(res.AllProviders, a.relays[i])
+		res.AllProviders = append(res.AllProviders, a.w.relays[i])
 	}
 	for _, i := range a.w.in.Winners {
-		res.Providers = append(res.Providers, a.relays[i])
+		res.Providers = append(res.Providers, a.w.relays[i])
 	}
 	return res, nil
 }
